@@ -2,7 +2,7 @@
 //! by-reference parameters, unit / scalar / heap / 136-byte outputs, two with the SAME output type),
 //! driven by sequences of fake / await / await-on-another-thread / drop / new through the public
 //! async macros with a hand-written executor that counts polls.
-//! input: <id> <op,op,...>   op = F:<i> | G:<i> | A:<i> | T:<i> (await on a spawned thread) | X:<i> (another thread's whole lifetime on fn i) | D | N
+//! input: <id> <op,op,...>   op = F:<i> | G:<i> | A:<i> | T:<i> (await on a spawned thread) | X:<i> / Y:<i> (another thread's whole lifetime on fn i, checked / unchecked entry points) | D | N
 use crate::util;
 use injectorpp::interface::injector::*;
 use std::future::Future;
@@ -89,6 +89,16 @@ fn do_fake_x(inj: &mut InjectorPP, i: usize) {
     }
 }
 
+/// the same through the UNCHECKED async entry points (when_called_async_unchecked / will_return_async_unchecked): fns 0 and 4 only
+fn do_fake_y(inj: &mut InjectorPP, i: usize) {
+    unsafe {
+        match i {
+            0 => inj.when_called_async_unchecked(injectorpp::async_func_unchecked!(a0(0))).will_return_async_unchecked(injectorpp::async_return_unchecked!(90000 + EVALX.fetch_add(1, SeqCst) as u32, u32)),
+            _ => inj.when_called_async_unchecked(injectorpp::async_func_unchecked!(a4(0))).will_return_async_unchecked(injectorpp::async_return_unchecked!(90000 + EVALX.fetch_add(1, SeqCst) as u32, u32)),
+        }
+    }
+}
+
 fn one(line: &str) -> String {
     let mut it = line.split_whitespace();
     let id = it.next().unwrap();
@@ -115,10 +125,12 @@ fn one(line: &str) -> String {
             "T" => { let i: usize = t[1].parse().unwrap(); out.push(std::thread::spawn(move || do_await(i)).join().unwrap()); }
             // X:<i> — ANOTHER thread runs a whole lifetime of its own on async fn i (new injector, the second fake, one await, drop).  While this
             // thread's injector is alive the other one must wait for it (nothing of it may take effect early); otherwise it runs at once.
-            "X" => {
+            "X" | "Y" => {
                 let i: usize = t[1].parse().unwrap();
+                let unchecked = t[0] == "Y";
+                let i = if unchecked && i != 0 { 4 } else { i };
                 let (tx, rx) = std::sync::mpsc::channel();
-                let h = std::thread::spawn(move || { let mut j = InjectorPP::new(); do_fake_x(&mut j, i); let _ = tx.send(()); let r = do_await(i); drop(j); r });
+                let h = std::thread::spawn(move || { let mut j = InjectorPP::new(); if unchecked { do_fake_y(&mut j, i) } else { do_fake_x(&mut j, i) }; let _ = tx.send(()); let r = do_await(i); drop(j); r });
                 let early = rx.recv_timeout(std::time::Duration::from_millis(if inj.is_some() { 60 } else { 3000 })).is_ok();
                 if inj.is_none() { xres.push(h.join().unwrap()); } else { pending.push(h); }
                 out.push(format!("X:{}", early as u8));
